@@ -12,7 +12,92 @@ use crate::props::{PropInfo, Property, Report, RunCtx, Tier};
 use crate::rng::Rng;
 use crate::sim::*;
 
+/// Aged large network: 90..140 servers join, every node bootstraps, and the network then runs for 21..44
+/// virtual minutes - past the 15-minute staleness limit and the next maintenance round. "Every joined server
+/// is discoverable: the knows-graph STAYS strongly connected": nothing has failed, so the graph that was
+/// connected after the join still is.
+const AGE_LO: u64 = 21;
+const AGE_HI: u64 = 44;
+fn run_aged_large(ctx: &RunCtx) -> Report {
+    let mut report = Report::default();
+    let mut rng = Rng::new(ctx.seed);
+    let net_cfg = NetCfg { latency_min_us: 500, latency_max_us: rng.range(2_000, 120_000), ..NetCfg::default() };
+    let sim = Sim::new(ctx.seed, net_cfg);
+    sim.set_snap_mode(SnapMode::OnDemand);
+    let mut plan = random_plan(&mut rng, 20, 0);
+    plan.servers = rng.usize(90, 140);
+    plan.clients = 0;
+    plan.dead_bootstrap = 0;
+    plan.junk_bootstrap = false;
+    plan.configured_ip_pct = 100;
+    plan.join = Join::Staggered(rng.range(5, 40) * SEC);
+    let net = build(&sim, &mut rng, &plan);
+    let all = net.all();
+    let ops: Vec<OpId> = all.iter().map(|h| sim.bootstrapped(*h)).collect();
+    let done = sim.run_ops(&ops, sim.now() + 120 * SEC);
+    let what = format!("aged large network: {plan:?}");
+    if !done {
+        report.violate("hang", "bootstrapped-did-not-return", format!("bootstrapped() did not return within 120 s; {what}"));
+    }
+    let connected = |sim: &Sim| -> Option<(HostId, usize, HostId)> {
+        refresh_snapshots(sim, &all);
+        let g = knows_graph(sim, &all);
+        for h in &net.servers {
+            let r = reachable(&g, *h);
+            let missing: Vec<HostId> = net.servers.iter().copied().filter(|s| !r.contains(s)).collect();
+            if !missing.is_empty() {
+                return Some((*h, missing.len(), missing[0]));
+            }
+        }
+        None
+    };
+    // every node looks a few random targets up in its first three minutes (tables grow well beyond the
+    // neighbourhood of the own id, as they do on any node that is used)
+    let t_l = sim.now();
+    for h in &all {
+        for _ in 0..rng.usize(3, 6) {
+            let (h, t, at) = (*h, rng.id(), t_l + rng.range(0, 180) * SEC);
+            sim.at(at, move |sim| {
+                let _ = sim.find_node(h, t);
+            });
+        }
+    }
+    sim.run_until(t_l + 190 * SEC);
+    sim.run_for(rng.range(5, 30) * SEC);
+    let early = connected(&sim);
+    let age = rng.range(AGE_LO * 60, AGE_HI * 60) * SEC;
+    sim.run_until(net.joined_at + age);
+    for h in &all {
+        if let Some(d) = sim.died(*h) {
+            report.violate("node-died", "node-actor-panicked", format!("node {} died: {d}", sim.node_addr(*h)));
+        }
+    }
+    if report.violation.is_none() {
+        match (early, connected(&sim)) {
+            (None, Some((from, n_missing, example))) => report.violate(
+                "connectivity",
+                "knows-graph-fell-apart-with-age",
+                format!("{} min after the join, with every node alive, {} of {} servers are no longer reachable from {} through routing tables (e.g. {}); the graph was strongly connected right after the join; {what}", age / (60 * SEC), n_missing, net.servers.len(), sim.node_addr(from), sim.node_addr(example)),
+            ),
+            (Some(_), _) => report.probe("aged_large_network_not_connected_after_join", 1),
+            _ => {}
+        }
+    }
+    let sizes: Vec<usize> = all.iter().filter_map(|h| sim.snapshot(*h).map(|s| s.routing_table.size)).collect();
+    report.probe("aged_large_network_runs", 1);
+    report.probe("aged_large_network_min_table_size", sizes.iter().copied().min().unwrap_or(0) as u64);
+    report.nontrivial = true;
+    report.probe("nodes", all.len() as u64);
+    report.sample = Some(json!({"plan": what}));
+    report.plan_dump = Some(what);
+    finish(&sim, report)
+}
+
 fn run(ctx: &RunCtx) -> Report {
+    // ten runs of a quick batch (every 300th run): the aged large network
+    if ctx.index % 300 == 7 {
+        return run_aged_large(ctx);
+    }
     let mut report = Report::default();
     let mut rng = Rng::new(ctx.seed);
     // 1 run in 8: slow links, round trips above the initial 500 ms request timeout
